@@ -1,7 +1,50 @@
-(* C05 -- placeholder statement until the reporting invariant lands (Arb/ReportProofs.v). *)
+(* C05 -- Every resource not serving traffic has been told why; active ones are not.
+   Only statements, each closed by [exact] and followed by Print Assumptions.
+
+   FULL STATEMENT (C05_truthful; not yet proved; decided on every run by evaluating
+   Arb.Cases.c05_run on the implementation's own change and problem lists):
+     for every history, after each event, for every object the controller knows (exists, own
+     class): it is active  <->  the most recent report derived from the batches is a success.
+   Proved below: the soundness of the delta suppression the reports go through. *)
 From Coq Require Import List ZArith String Bool.
-From NIC Require Import Base.SMap Arb.Types Arb.Model Arb.Spec Arb.InvProofs.
-Theorem C05_state_function_of_objects :
-  forall c es, hosts (run c es) = hosts_of_objs c (objs_after es) /\ lhosts (run c es) = lhosts_of_objs (objs_after es).
-Proof. exact hosts_function_of_objs. Qed.
-Print Assumptions C05_state_function_of_objects.
+From NIC Require Import Base.SMap Arb.Types Arb.Model Arb.Spec Arb.InvProofs Arb.ClassProofs Arb.Cases Arb.ChangeProofs.
+Import ListNotations.
+Open Scope Z_scope.
+
+(* Problems are emitted as deltas against the previous problem set.  For EVERY history: every problem
+   that is standing in hostProblems at the end has been sent, and it is the most recent problem sent
+   about that object -- also when the problem had been dropped from the set in between and came
+   back (it is then re-sent).  [told_hosts] accumulates, per object, the last problem of the deltas. *)
+Theorem C05_standing_problems_were_told_partial :
+  forall c es, let '(acc, s) := told_hosts c init [] es in told acc (hprobs s) /\ s = run c es.
+Proof. exact standing_problems_were_told. Qed.
+Print Assumptions C05_standing_problems_were_told_partial.
+
+(* one round of delta suppression, for arbitrary problem maps *)
+Theorem C05_delta_suppression_sound :
+  forall acc old new, wf new -> keyed_by_obj new -> told acc old -> told (tell acc (problem_delta new old)) new.
+Proof. exact delta_sound. Qed.
+Print Assumptions C05_delta_suppression_sound.
+
+(* the problem maps are a function of the object set: nothing about an object that left can linger *)
+Theorem C05_problem_sets_function_of_objects : forall c es, full_inv c (run c es).
+Proof. exact run_full_inv. Qed.
+Print Assumptions C05_problem_sets_function_of_objects.
+
+(* a re-sync that changes nothing is silent: no change, no problem (no report is repeated) *)
+Theorem C05_resync_is_silent :
+  forall c s, full_inv c s -> rebuild_hosts c s = (s, [], []).
+Proof. exact rebuild_hosts_idem. Qed.
+Print Assumptions C05_resync_is_silent.
+
+(* Non-vacuity: a VirtualServer loses its host (problem), the winner is deleted (problem dropped,
+   success), a new winner arrives (the problem comes back and is sent again). *)
+Definition vA := mkVS (mkMeta "ns" "a" "u1" 200 1 0) "h.example.com" [] None.
+Definition vB u := mkVS (mkMeta "ns" "b" u 100 1 0) "h.example.com" [] None.
+Example C05_problem_comes_back :
+  let c := mkCfg true true in
+  let s2 := run c [EVS vA true true; EVS (vB "u2") true true] in
+  let s3 := run c [EVS vA true true; EVS (vB "u2") true true; EDelVS "ns/b"] in
+  map fst (hprobs s2) = ["VirtualServer/ns/a"%string] /\ hprobs s3 = [] /\
+  map p_obj (host_delta c s3 (EVS (vB "u3") true true)) = ["VirtualServer/ns/a"%string].
+Proof. vm_compute. auto. Qed.
